@@ -125,7 +125,9 @@ def run(prog, rep):
         for n in walk(s):
             if n["k"] == "bin" and n["op"] in (">=", "<=", ">", "<") and cv(n["r"]) is not None and root_var(n["l"]) == nw.param_names()[0]:
                 got.append((n["op"], cv(n["r"])))
-    okr = sorted(got) == sorted([(">=", lo), ("<=", hi)]) or sorted(got) == sorted([(">", lo - 1), ("<", hi + 1)])
+    forms = ([(">=", lo), ("<=", hi)], [(">", lo - 1), ("<", hi + 1)],          # accepted range
+             [("<", lo), (">", hi)], [("<=", lo - 1), (">=", hi + 1)])          # rejected complement (De Morgan form)
+    okr = any(sorted(got) == sorted(f_) for f_ in forms)
     rep.ob("C11.1", nw, "range", okr, "the type range test accepts exactly [%d, %d]" % (lo, hi) if okr else "the type range test is %s, enumerators span [%d, %d]" % (got, lo, hi), nw.loc[0])
     rep.floor("C11.1", 12)
 
